@@ -10,7 +10,8 @@ a type-check error only if they fail. -/
 def OutOk (ok : Bool) (i : Nat) (o : StreamOut) : Prop :=
   (o = .row i ∧ ok = true) ∨ (o = .typeErr i ∧ ok = false)
 
-/-- The rows of one page: provided the page is fresh, or the flag is unset, or the page is known to pass. -/
+/-- The rows of one page: provided the page is fresh, or the flag is unset, or the page is known to pass —
+also for the rows polled AFTER a refused row (the flag stays unset, so they are checked, and refused, again). -/
 theorem pageRows_ok (ok : Bool) (i : Nat) : ∀ (n : Nat) (fresh flag : Bool),
     (fresh = true ∨ flag = false ∨ ok = true) → ∀ o, o ∈ (pageRows ok i n fresh flag).1 → OutOk ok i o := by
   intro n
@@ -24,11 +25,12 @@ theorem pageRows_ok (ok : Bool) (i : Nat) : ∀ (n : Nat) (fresh flag : Bool),
       rw [hs] at ho
       cases err with
       | true =>
-        simp only [List.mem_singleton] at ho
-        subst ho
-        right
-        refine ⟨rfl, ?_⟩
-        cases ok <;> cases fresh <;> cases flag <;> simp [streamRow] at hs ⊢
+        have hbad : ok = false ∧ flag' = false := by
+          cases ok <;> cases fresh <;> cases flag <;> simp [streamRow] at hs ⊢ <;> simp_all
+        simp only at ho
+        rcases List.mem_cons.mp ho with rfl | hmem
+        · exact .inr ⟨rfl, hbad.1⟩
+        · exact ih false flag' (.inr (.inl hbad.2)) o hmem
       | false =>
         have hok : ok = true := by
           rcases h with h | h | h
@@ -54,16 +56,13 @@ theorem streamPages_ok (check : List (String × CqlTy) → Bool) : ∀ (ps : Lis
       exact ⟨k + 1, q, by simpa using hq, by rw [show i + (k + 1) = i + 1 + k by omega]; exact hok⟩
     · have hrows := pageRows_ok (check p.specs) i p.rows true flag (.inl rfl)
       cases hp : pageRows (check p.specs) i p.rows true flag with
-      | mk os r =>
+      | mk os flag' =>
         rw [hp] at ho hrows
-        cases r with
-        | none => exact ⟨0, p, rfl, hrows o ho⟩
-        | some flag' =>
-          simp only at ho
-          rcases List.mem_append.mp ho with h | h
-          · exact ⟨0, p, rfl, hrows o h⟩
-          · obtain ⟨k, q, hq, hok⟩ := ih (i + 1) flag' o h
-            exact ⟨k + 1, q, by simpa using hq, by rw [show i + (k + 1) = i + 1 + k by omega]; exact hok⟩
+        simp only at ho
+        rcases List.mem_append.mp ho with h | h
+        · exact ⟨0, p, rfl, hrows o h⟩
+        · obtain ⟨k, q, hq, hok⟩ := ih (i + 1) flag' o h
+          exact ⟨k + 1, q, by simpa using hq, by rw [show i + (k + 1) = i + 1 + k by omega]; exact hok⟩
 
 theorem typedStream_ok (check : List (String × CqlTy) → Bool) (pages : List PageM) (outs : List StreamOut)
     (h : typedStream check pages = some outs) (o : StreamOut) (ho : o ∈ outs) :
@@ -78,17 +77,24 @@ theorem typedStream_ok (check : List (String × CqlTy) → Bool) (pages : List P
       have hpass : check p.specs = true := by simpa using hc
       have hrows := pageRows_ok (check p.specs) 0 p.rows false true (.inr (.inr hpass))
       cases hp : pageRows (check p.specs) 0 p.rows false true with
-      | mk os r =>
+      | mk os flag =>
         rw [hp] at h hrows
-        cases r with
-        | none =>
-          simp only [Option.some.injEq] at h; subst h
-          exact ⟨0, p, rfl, hrows o ho⟩
-        | some flag =>
-          simp only [Option.some.injEq] at h; subst h
-          rcases List.mem_append.mp ho with h1 | h1
-          · exact ⟨0, p, rfl, hrows o h1⟩
-          · obtain ⟨k, q, hq, hok⟩ := streamPages_ok check ps 1 flag o h1
-            exact ⟨k + 1, q, by simpa using hq, by rw [show k + 1 = 1 + k by omega]; exact hok⟩
+        simp only [Option.some.injEq] at h; subst h
+        rcases List.mem_append.mp ho with h1 | h1
+        · exact ⟨0, p, rfl, hrows o h1⟩
+        · obtain ⟨k, q, hq, hok⟩ := streamPages_ok check ps 1 flag o h1
+          exact ⟨k + 1, q, by simpa using hq, by rw [show k + 1 = 1 + k by omega]; exact hok⟩
+
+/-- A stop-at-first-error consumer sees a prefix of the polled-to-the-end items. -/
+theorem untilFirstError_mem : ∀ (l : List StreamOut) (o : StreamOut), o ∈ untilFirstError l → o ∈ l
+  | [], o, h => by simp [untilFirstError] at h
+  | .row i :: r, o, h => by
+    simp only [untilFirstError] at h
+    rcases List.mem_cons.mp h with rfl | h
+    · simp
+    · exact List.mem_cons_of_mem _ (untilFirstError_mem r o h)
+  | .typeErr i :: r, o, h => by
+    simp only [untilFirstError, List.mem_singleton] at h
+    subst h; simp
 
 end ScyllaVerif.Proofs.PagerStream
